@@ -501,3 +501,8 @@ func (r *Rand) Pick2(a, b int) int {
 	}
 	return b
 }
+
+// Registry of property packages (each registers itself in init()).
+var Registry = map[string]Prop{}
+
+func Register(p Prop) { Registry[p.ID()] = p }
